@@ -55,7 +55,10 @@ def gen_case(rng, i, tier):
             continue
         if r < 0.36:
             ops.append("tell 0")
-            ops.append("%s 0 %d" % (rng.choice(["timeseek", "timeseekpage"]), rng.choice([-1, -1000, int(tb[-1]) + 2, int(tb[-1]) + 5000])))
+            # below zero, beyond the end, and the first value out of range exactly: the duration itself, the double above it, not-a-number;
+            # through the plain and the lapped entry points (which check the range before they collect their lapping samples)
+            ops.append("%s 0 %s" % (rng.choice(["timeseek", "timeseekpage", "timeseeklap", "timeseekpagelap"]),
+                                    rng.choice([-1, -1000, int(tb[-1]) + 2, int(tb[-1]) + 5000, "end", "end", "endp", "nan"])))
             ops.append("tell 0")
             ops.append("read 0 64")
             continue
@@ -132,6 +135,12 @@ def oracle(d):
                     return "range: %s accepted" % op
                 if int(f["tell"]) != last_tell:
                     return "undisturbed: rejected %s moved the position %d -> %s" % (op, last_tell, f["tell"])
+        elif name in ("timeseek", "timeseekpage", "timeseeklap", "timeseekpagelap") and (op.split(" ")[2] in ("end", "endp", "nan") or name.endswith("lap")):
+            # (the lapped entry points are only issued with out-of-range arguments here)
+            if f["rc"] == "0":
+                return "range: %s accepted" % op
+            if int(f["tell"]) != last_tell:
+                return "undisturbed: rejected %s moved the position %d -> %s" % (op, last_tell, f["tell"])
         elif name in ("timeseek", "timeseekpage"):
             ms = int(op.split(" ")[2])
             t = ms / 1000.0
